@@ -102,6 +102,13 @@ let run_c06 (s : sess) (r : rng) corpus quick nshards budget run_case =
           if (abs c.cp).s_board <> std.s_board then fail_spec "startpos is not the standard initial position";
           ignore (obs_fen s)) [ false; true ]);
   List.iter (fun (d, p, tag) ->
+      (* one position in six with counters at the boundaries of 8-, 16-, 32- and 64-bit integers and of 19/20 decimal digits *)
+      let p = if p.s_ep = None && chance r 1 6 then
+          { p with s_half = n_of_dec [| "255"; "256"; "65535"; "65536"; "4294967295"; "4294967296"; "9223372036854775807"; "9223372036854775808";
+                                        "9999999999999999999"; "10000000000000000000"; "18446744073709551615" |].(rand r 11);
+                   s_full = n_of_dec [| "0"; "255"; "65536"; "4294967296"; "9223372036854775807"; "9223372036854775808"; "12345678901234567890";
+                                        "18446744073709551615" |].(rand r 8) }
+        else p in
       run_case s (fun () ->
           bump ("source_" ^ tag);
           if List.length !samples < 4 then add_sample (fen_string d p);
